@@ -7,6 +7,8 @@ CHECK = {
     "parts": [
         {"name": "files", "pkg": "verifharness/prop/c09", "run": "^TestVerif_C09_Files$",
          "timeout": {"quick": 600, "thorough": 3600}},
+        {"name": "sizesweep", "pkg": "verifharness/prop/c09", "run": "^TestVerif_C09_SizeSweep$",
+         "timeout": {"quick": 600, "thorough": 3600}},
         {"name": "longfile", "pkg": "verifharness/prop/c09", "run": "^TestVerif_C09_LongFile$",
          "timeout": {"quick": 600, "thorough": 3600}},
     ],
